@@ -753,7 +753,57 @@ type bindingClass struct {
 // handed the iteration index, the parameter name and the argument list.
 func classifyBinding(w *World, fn *ssa.Function, val ssa.Value, at *ssa.BasicBlock, idxVal, paramVal ssa.Value, argsParam ssa.Value, evalM *types.Func, depth int) []bindingClass {
 	bad := func(c, p string) []bindingClass { return []bindingClass{{kind: "bad", construct: c, problem: p}} }
+	// onlyWithoutArgument: the block lies behind the "no argument at this position" edge of
+	// every test that relates the iteration index to len(args) — a supplied argument, whatever
+	// its value (0, '', false, null), is never replaced by a default or by null
+	onlyWithoutArgument := func() bool {
+		if argsParam == nil {
+			return true
+		}
+		found, ok := false, true
+		for _, b := range fn.Blocks {
+			v, trueIdx, isIf := ifCond(b)
+			if !isIf {
+				continue
+			}
+			bo, isBo := v.(*ssa.BinOp)
+			if !isBo {
+				continue
+			}
+			isLen := func(x ssa.Value) bool {
+				lc, ok := x.(*ssa.Call)
+				if !ok {
+					return false
+				}
+				bi, ok := lc.Call.Value.(*ssa.Builtin)
+				return ok && bi.Name() == "len" && sameValue(lc.Call.Args[0], argsParam)
+			}
+			var suppliedIdx int
+			switch {
+			case bo.Op == token.LSS && sameValue(bo.X, idxVal) && isLen(bo.Y), bo.Op == token.GTR && isLen(bo.X) && sameValue(bo.Y, idxVal):
+				suppliedIdx = trueIdx
+			case bo.Op == token.GEQ && sameValue(bo.X, idxVal) && isLen(bo.Y), bo.Op == token.LEQ && isLen(bo.X) && sameValue(bo.Y, idxVal):
+				suppliedIdx = 1 - trueIdx
+			default:
+				continue
+			}
+			if !(b == at || b.Dominates(at)) {
+				continue
+			}
+			found = true
+			// edge dominance: from the "argument supplied" successor the binding cannot be
+			// reached without coming round to the test again
+			supplied := b.Succs[suppliedIdx]
+			if supplied == at || blockReachesAvoiding(supplied, at, b) {
+				ok = false
+			}
+		}
+		return found && ok
+	}
 	if isNilConst(val) {
+		if !onlyWithoutArgument() {
+			return bad(" to null", "the parameter can be bound to null although an argument was supplied at its position (the binding is not confined to the i >= len(args) side of the test): the corresponding argument does not reach the macro")
+		}
 		return []bindingClass{{kind: "nil"}}
 	}
 	// args[i]
@@ -798,6 +848,9 @@ func classifyBinding(w *World, fn *ssa.Function, val ssa.Value, at *ssa.BasicBlo
 				if dex, ok := src.(*ssa.Extract); ok {
 					if lk, ok := dex.Tuple.(*ssa.Lookup); ok && sameValue(lk.Index, paramVal) {
 						if t, f := originField(lk.X, 0); t == "MacroNode" && f == "defaults" {
+							if !onlyWithoutArgument() {
+								return bad(" to its evaluated default", "the default can be bound although an argument was supplied at this position (the binding is not confined to the i >= len(args) side of the test): an argument whose value happens to be empty — 0, '', false, a comparison that is false — is replaced by the default")
+							}
 							return []bindingClass{{kind: "default"}}
 						}
 					}
